@@ -36,16 +36,41 @@ def mod_case(cid, rng):
 
 
 def impl_case(cid, rng):
-    a = "#[::entrait::%s(%s)] /*@inv*/" % (rng.choice(MACROS), rng.choice(["", "", "ref", "dyn", "debug = false", "ref, debug = false"]))
+    a = "#[::entrait::%s(%s)] /*@inv*/" % (rng.choice(MACROS), rng.choice(["", "", "ref", "dyn", "debug = false", "ref debug = false"]))
     body = soup.rich_impl(rng, rng.choice(["TraitImpl", "crate::some::TraitImpl", "TraitImpl<u8>", "::abs::TraitImpl"]),
                           rng.choice(["MyType", "crate::x::MyType", "Vec<u8>", "(u8, i8)", "[u8; 2]", "&'static str"]))
     return Case(cid, "%s\n%s\n" % (a, body), meta={"kind": "impl"}, run=False, expect="expand")
 
 
-def corpus(prefix, n, rng, kinds=("fn", "fn", "mod", "impl")):
+def macro_case(cid, rng):
+    """Inputs produced by macro_rules! with ident / ty / expr / block / tt / path fragments: the macro receives
+    None-delimited groups and tokens of mixed hygiene."""
+    frags = [("$t:ty", "$t", rng.choice(["u8", "Vec<(u8, &'static str)>", "Option<Box<dyn Fn(u8) -> u8>>", "[u8; 2 + 2]"])),
+             ("$e:expr", "$e", rng.choice(["1 + 2 * 3", "|x: u8| x + 1", "if true { 1 } else { 2 }", "vec![1, 2]"])),
+             ("$b:block", "$b", rng.choice(["{ 1 }", "{ let x = 2; x * 3 }"])),
+             ("[ $($tt:tt)* ]", "$($tt)*", "[ " + rng.choice(["let _ = (1, [2], {3});", "loop { break; }"]) + " ]"),
+             ("$p:path", "$p", rng.choice(["::core::clone::Clone", "some::path::Tr"])),
+             ("$n:ident", "$n", rng.choice(["param_name", "r#type"])),
+             ("$l:lifetime", "$l", "'q"), ("$lit:literal", "$lit", rng.choice(["42", "\"str\""]))]
+    frags.insert(0, ("$v:vis", "$v", rng.choice(["pub", "pub(crate)", ""])))
+    kind = rng.choice(["fn", "fn", "mod"])
+    a, opts = attr(rng, kind, "Tr")
+    a = a.replace(" /*@inv*/", "")
+    matcher = "; ".join(f[0] for f in frags).replace("$v:vis;", "$v:vis,")
+    args = "; ".join(f[2] for f in frags).replace(frags[0][2] + ";", frags[0][2] + ",", 1)
+    fn = "$v fn target<$l, D: $p>(deps: &$l D, $n: $t, other: [u8; $lit]) -> $t where D: $p { let _ = $e; let _ = $b; $($tt)* unimplemented!() }"
+    if kind == "fn":
+        body = "%s /*@inv*/\n        %s" % (a, fn)
+    else:
+        body = "%s /*@inv*/\n        mod the_mod { pub struct S; %s const C: $t = $e; fn private() %s }" % (a, fn.replace("$v fn", "pub fn"), "$b" if rng.random() < 0.1 else "{ $b }")
+    src = "macro_rules! make {\n    (%s) => {\n        %s\n    };\n}\nmake!(%s);\n" % (matcher, body, args)
+    return Case(cid, src, meta={"kind": "macro_rules:" + kind, "options": opts}, run=False, expect="expand")
+
+
+def corpus(prefix, n, rng, kinds=("fn", "fn", "mod", "impl", "macro")):
     out = []
     for i in range(n):
         k = rng.choice(kinds)
         cid = "%s_%05d" % (prefix, i)
-        out.append({"fn": fn_case, "mod": mod_case, "impl": impl_case}[k](cid, rng))
+        out.append({"fn": fn_case, "mod": mod_case, "impl": impl_case, "macro": macro_case}[k](cid, rng))
     return out
